@@ -134,7 +134,9 @@ impl Case {
             Base::Literal(s) => s.clone(),
         };
         // mutate the program body only, then add the prelude (its constants are never mutated)
-        with_prelude(&apply(&base, &self.muts, all_replacements()))
+        // this check transforms in-process: the one range of the shared list that asks for 2^63
+        // elements (the recorded C18 finding) is replaced by a small one
+        with_prelude(&apply(&base, &self.muts, all_replacements()).replace("0..=9223372036854775807", "0..=2"))
     }
 }
 
@@ -277,6 +279,22 @@ fn declared_decision_variable(e: &TransformError, src: &str) -> bool {
     })
 }
 
+const RANGE_GUARD: &str = "VERIF-RANGE-GUARD";
+thread_local! {
+    static RANGE_BUDGET: std::cell::Cell<i128> = const { std::cell::Cell::new(0) };
+}
+
+fn range_guard(from: i64, to: i64, inclusive: bool) {
+    let len = if to >= from { to as i128 - from as i128 + inclusive as i128 } else { 0 };
+    let left = RANGE_BUDGET.with(|b| {
+        b.set(b.get() - len);
+        b.get()
+    });
+    if left < 0 {
+        panic!("{}", RANGE_GUARD);
+    }
+}
+
 fn numeric(k: &PrimitiveKind) -> bool {
     matches!(k, PrimitiveKind::Number | PrimitiveKind::Integer | PrimitiveKind::PositiveInteger | PrimitiveKind::Boolean)
 }
@@ -389,7 +407,23 @@ impl Prop for C19 {
         }
         let mutated = !case.muts.is_empty();
         let interesting = src.contains('(') && (src.contains(" in ") || src.contains("len("));
-        match pre.transform(vec![], &fns) {
+        // this check transforms in-process: a mutated range that asks for millions of elements (the
+        // recorded C18 finding) is cut short through the range observer and the case is skipped
+        RANGE_BUDGET.with(|b| b.set(200_000));
+        rooc::verif_hooks::set_range_observer(Some(range_guard));
+        let transformed = std::panic::catch_unwind(std::panic::AssertUnwindSafe(|| pre.transform(vec![], &fns)));
+        rooc::verif_hooks::set_range_observer(None);
+        let transformed = match transformed {
+            Ok(t) => t,
+            Err(p) => {
+                let msg = p.downcast_ref::<String>().cloned().or_else(|| p.downcast_ref::<&str>().map(|s| s.to_string())).unwrap_or_default();
+                if msg == RANGE_GUARD {
+                    return Outcome::Skip("mutated range too large for an in-process transform".into());
+                }
+                std::panic::resume_unwind(p);
+            }
+        };
+        match transformed {
             Ok(_) => Outcome::Pass { nontrivial: mutated && interesting, labels: vec!["accepted-and-transformed".into()] },
             Err(e) => match type_class(&e).or_else(|| strict_integer_position(&e, &src)).filter(|_| !missing_member_of_declared_family(&e, &src)) {
                 None => Outcome::Pass { nontrivial: mutated && interesting, labels: vec!["accepted:data-dependent-failure".into()] },
@@ -401,7 +435,7 @@ impl Prop for C19 {
                         Base::Model(m) => m.text(),
                         Base::Literal(l) => l.clone(),
                     };
-                    let body = apply(&body, &case.muts, all_replacements());
+                    let body = apply(&body, &case.muts, all_replacements()).replace("0..=9223372036854775807", "0..=2");
                     let any_typed = has_any_typed_array(&body) || crate::gen::mutate::split(&body).contains(&crate::gen::mutate::Piece::Word("MM".into()));
                     // second recorded limitation: a block or scoped function (max { 1, 2 }, sum(..) { .. })
                     // is typed Number, but the transformer cannot evaluate one where a value is needed
